@@ -71,3 +71,33 @@ func Remove(name string) error {
 	defer after()
 	return os.Remove(name)
 }
+
+// read-side calls: they do not change the tree, so they are not crash points; passed through
+
+type (
+	DirEntry = os.DirEntry
+	FileInfo = os.FileInfo
+	File     = os.File
+)
+
+func ReadDir(name string) ([]os.DirEntry, error)  { return os.ReadDir(name) }
+func Readlink(name string) (string, error)        { return os.Readlink(name) }
+func ReadFile(name string) ([]byte, error)        { return os.ReadFile(name) }
+func Stat(name string) (os.FileInfo, error)       { return os.Stat(name) }
+func Lstat(name string) (os.FileInfo, error)      { return os.Lstat(name) }
+func IsNotExist(err error) bool                   { return os.IsNotExist(err) }
+func IsExist(err error) bool                      { return os.IsExist(err) }
+func Getpid() int                                 { return os.Getpid() }
+func MkdirTemp(dir, pattern string) (string, error) { return os.MkdirTemp(dir, pattern) }
+
+func Mkdir(name string, perm os.FileMode) error {
+	before()
+	defer after()
+	return os.Mkdir(name, perm)
+}
+
+func Chmod(name string, mode os.FileMode) error {
+	before()
+	defer after()
+	return os.Chmod(name, mode)
+}
